@@ -37,6 +37,7 @@ def run(chk: Check, proj: Project) -> None:
     s8_reader_not_wider(chk, proj, m)
     s9_optional_index(chk, proj, m)
     s10_scan_input(chk, proj, m)
+    s12_gives_up_only_without_both(chk, proj, m)
     from . import C04
     from .common import world
 
@@ -56,6 +57,22 @@ def placeholder_roles(f) -> dict:
                     if isinstance(a, ast.Assign) and isinstance(a.value, ast.Constant) and a.value.value is True and isinstance(a.targets[0], ast.Name):
                         flags[kind] = a.targets[0].id
     return {"flags": flags, "deps": {"js": R["js"], "css": R["css"]}, "work": R["work"]}
+
+
+def s12_gives_up_only_without_both(chk: Check, proj: Project, m) -> None:
+    chk.rule("S12", "the default-location helper gives up early only when there is NOTHING to insert: both kinds absent (the caller passes None for the kind whose placeholder was found, so one None is the normal case)")
+    f = m.func("_insert_js_css_to_default_locations")
+    kinds = [p_ for p_ in params(f) if p_.endswith("_content") and p_ != params(f)[0]]
+    rets = [r for r in f.body[:4] for r in ast.walk(r) if isinstance(r, ast.Return) and (r.value is None or (isinstance(r.value, ast.Constant) and r.value.value is None))]
+    if len(kinds) != 2 or not rets:
+        chk.holds("S12", "dependencies:_insert_js_css_to_default_locations:early-return-needs-both-absent", m.loc(f), "no early give-up at the top of the helper", nontrivial=False)
+        return
+    r = rets[0]
+    at = {t for t, pol in cond_atoms(r) if pol}
+    ok = all(f"{k} is None" in at for k in kinds)
+    chk.ob("S12", "dependencies:_insert_js_css_to_default_locations:early-return-needs-both-absent", m.loc(r), ok,
+           f"the early `return None` requires `{kinds[0]} is None` AND `{kinds[1]} is None`" if ok else
+           f"the early `return None` does not require BOTH `{kinds[0]} is None` and `{kinds[1]} is None` (its guard: `{short(enclosing_stmt(r).test) if hasattr(enclosing_stmt(r), 'test') else '?'}`): a page with a placeholder for only one kind gets None for that kind - the helper bails out and the OTHER kind is never inserted at its default location")
 
 
 def s10_scan_input(chk: Check, proj: Project, m) -> None:
